@@ -146,6 +146,34 @@ def run(prog: Program, res: Result) -> None:
                                     f"{f.name} ranks user-sign costs of a result with {h.name}: {why}"))
     res.count("utils-ranking-calls", n_calls)
     res.floor("utils-ranking-calls", 1)
+    # the requested iterations are reported one entry per request, in the requested order: nothing may sort / deduplicate /
+    # reverse the `iters` argument on its way to the generation index
+    n_it = 0
+    REORDER = {"sorted", "reversed", "set", "frozenset", "np.unique", "np.sort", "numpy.unique", "numpy.sort", "dict.fromkeys"}
+    for f in utils.functions.values():
+        it_params = [p_ for p_ in f.params if p_ in ("iters", "iterations", "generations")]
+        if not it_params:
+            continue
+        n_it += 1
+        for n in own_nodes(f):
+            hit = None
+            if isinstance(n, ast.Call) and (dotted(n.func) or "") in REORDER and any(
+                    isinstance(x, ast.Name) and x.id in it_params for a in n.args for x in ast.walk(a)):
+                hit = n
+            elif isinstance(n, ast.Call) and isinstance(n.func, ast.Attribute) and n.func.attr in ("sort", "reverse") \
+                    and isinstance(n.func.value, ast.Name) and n.func.value.id in it_params:
+                hit = n
+            elif isinstance(n, ast.Subscript) and isinstance(n.value, ast.Name) and n.value.id in it_params \
+                    and isinstance(n.slice, ast.Slice) and n.slice.step is not None and isinstance(n.ctx, ast.Load):
+                hit = n
+            if hit is not None:
+                key = construct_key(prog, hit, utils)
+                res.ob(False)
+                res.add(Finding(P, "C15.R3-iterations-as-requested", key, f"{utils.relpath}:{hit.lineno}",
+                                f"{f.name} passes the requested iterations through `{norm(hit, 40)}`: entry j of the returned trend is "
+                                f"no longer the value at generation iters[j] (order / duplicates of the request are lost)"))
+    res.count("utils-functions-taking-iterations", n_it)
+    res.floor("utils-functions-taking-iterations", 2)
     if has_dir_field:
         # the field must be filled from the packaging direction: kwargs passes task_type through super().__init__(**kwargs)
         res.ob(True, f"{result_cls.loc()} OptimizationResult.task_type field present", "OptimizationResult.task_type")
@@ -160,6 +188,9 @@ _M = "pyvolutionary/models.py"
 _U = "pyvolutionary/utils.py"
 _ANCHOR = "        leader_position = np.array(self._best_agent.position)\n"
 VARIANTS = [
+    V("trend-sorts-requested-iterations", "pyvolutionary/utils.py",
+      "    return [sort_by_cost(result.evolution[i].agents, result.task_type)[idx].cost for i in iters]",
+      "    return [sort_by_cost(result.evolution[i].agents, result.task_type)[idx].cost for i in sorted(iters)]", "C15.R3"),
     V("cost-store-on-loop-member", _W, _ANCHOR,
       _ANCHOR + "        for w in self._population:\n            w.cost = w.cost * 1.0\n", "C15.R1"),
     V("position-element-store", _W, _ANCHOR,
